@@ -21,6 +21,7 @@ import GnarkVerif.Model.Poseidon2
 import GnarkVerif.Model.SIS
 import GnarkVerif.Model.TowerExec
 import GnarkVerif.Model.MSM
+import GnarkVerif.Model.Poly
 /-
 Line-protocol driver: one op per input line, one canonical result per output line.
 The Go harness runs the real implementation on the same lines; bin/check diffs the two streams.
@@ -63,6 +64,7 @@ def handleLine (line : String) : String :=
   | "C14" :: "sism" :: rest => SIS.handle rest
   | "C06slp" :: rest => TowerExec.handle rest
   | "C04" :: rest => MSM.handle rest
+  | "C20" :: rest => Poly.handle rest
   | _ => "bad-op"
 
 partial def loop (h : IO.FS.Stream) (out : IO.FS.Stream) : IO Unit := do
